@@ -933,6 +933,13 @@ def unit_ctor_rejects(ctx):
            "StudentT.scale": lambda v: D.StudentT(3.0, jnp.zeros(v.shape), v)}
     for nm in ("Normal", "Cauchy", "Gumbel", "Laplace", "Logistic"):
         one[nm] = (lambda c: lambda v: c(jnp.zeros(v.shape), v))(getattr(D, nm))
+    # every entry invalid at once (e.g. log-probabilities passed as weights): a sign that cancels in a ratio (seeded change C11f)
+    for vec in ([-1.0, -3.0, -0.5], [-0.2, -0.3, -0.5], [-1e-6, -1e-6, -1e-6], [-2.0, -2.0, -2.0]):
+        arr = jnp.asarray(A(vec))
+        add("VmapMixture.weights", vec, lambda arr=arr: D.VmapMixture(eqx.filter_vmap(D.Normal)(jnp.zeros(3)), arr), f"rej.mix {hexlist(vec)}", docpos(vec), False)
+        add("Normal", vec, lambda arr=arr: D.Normal(jnp.zeros(3), arr), f"rej.pos {hexlist(vec)}", docpos(vec), False)
+        add("StudentT.df", vec, lambda arr=arr: D.StudentT(arr), f"rej.df {hexlist(vec)}", docpos(vec), False)
+    add("VmapMixture.weights", [-1.0], lambda: D.VmapMixture(eqx.filter_vmap(D.Normal)(jnp.zeros(1)), jnp.asarray([-1.0])), f"rej.mix {hexlist([-1.0])}", True, False)
     for v in POSV:
         for vec in ([v], [1.0, v, 2.0]):
             h = hexlist(vec)
